@@ -811,6 +811,106 @@ def check_point_list_fsm(ctx, db):
     ctx.require('R-FSM classifier states', len(seen), 20)
 
 
+def check_point_list_model(ctx, db):
+    """oasis_read_point_list interpreted (sa/minieval) for every list type 0..5, open and closed, with 1 to 4 deltas, on a result array
+    that already holds the start vertex (and one more before it): the integers the delta readers are asked for are handed out from a
+    fixed list, scaling 3. Required: the vertices stored after the start vertex, the count returned and result.count are the format's -
+    types 0/1 alternate horizontal / vertical 1-deltas (a closed list gets the one vertex that closes with Manhattan edges), types 2-4
+    add each delta to the previous vertex, type 5 adds the running sum of the deltas. Cursors, indices, branches or conditional
+    expressions - any form."""
+    from .. import minieval as M
+    f = db.fn('gdstk::oasis_read_point_list')
+    ctx.touch(f)
+    names = {c['n']: c['v'] for c in db.enum('gdstk::OasisPointList')['consts']}
+    S = 3
+    start = (50, 70)
+    bad = []
+    runs = 0
+    for tname, tcode in sorted(names.items(), key=lambda kv: kv[1]):
+        for closed in (0, 1):
+            for k in (1, 2, 3, 4):
+                runs += 1
+                ones = [4, -7, 5, 9][:k]
+                pairs = [(4, -1), (-7, 2), (5, 5), (0, 9)][:k]
+                q1, q2 = list(ones), list(pairs)
+                ref = [None]
+
+                def extra(callee, args, node):
+                    short = (callee or '').split('::')[-1]
+                    if short == 'oasis_read':
+                        dst = args[0]
+                        if isinstance(dst, M.Ref):
+                            dst.env[dst.name] = tcode
+                            return (0,)
+                    if short == 'oasis_read_unsigned_integer':
+                        return (k,)
+                    if short in ('oasis_read_1delta', 'oasis_read_integer'):
+                        if not q1:
+                            raise M.OutOfBounds('a %dth 1-delta is read from a list of %d' % (k + 1, k))
+                        return (q1.pop(0),)
+                    if short in ('oasis_read_2delta', 'oasis_read_3delta', 'oasis_read_gdelta'):
+                        if not q2:
+                            raise M.OutOfBounds('a %dth delta is read from a list of %d' % (k + 1, k))
+                        x_, y_ = q2.pop(0)
+                        call_, env_ = ref[0].cur_call
+                        for a_, v_ in ((call_.args[1], x_), (call_.args[2], y_)):
+                            a0_ = _strip_casts(a_)
+                            if a0_ is None or a0_.k != 'DeclRefExpr':
+                                raise AnalysisBroken('oasis_read_point_list: delta reader called without plain out-variables')
+                            cur_ = env_.get(a0_.n)
+                            if isinstance(cur_, M.Ref):
+                                cur_.env[cur_.name] = v_
+                            else:
+                                env_[a0_.n] = v_
+                        return (None,)
+                    if short in ('fputs', 'fprintf', '__assert_fail'):
+                        return (0,)
+                    return None
+                pts = [M.Obj(x=-1, y=-2), M.Obj(x=start[0], y=start[1])]
+                res = M.Obj(items=M.Ptr(pts, 0), count=2, capacity=2)
+                mi = M.Mini(db, hook=M.array_hook(ref, extra), budget=50000, member_store=True, members={'in.error_code': 0}, globals={'error_logger': 0})
+                mi.obj_store = True
+                mi.writable.add(id(pts))
+                ref[0] = mi
+                env = {f.params[0]['n']: ('opaque', 'in'), f.params[1]['n']: S, f.params[2]['n']: closed, f.params[3]['n']: res}
+                ret = None
+                try:
+                    mi.run(f.body, env)
+                except M.Return as rr:
+                    ret = rr.v
+                except M.OutOfBounds as ex:
+                    bad.append('%s, %s, %d deltas: %s' % (tname, 'closed' if closed else 'open', k, ex))
+                    continue
+                it = res['items']
+                got = [(it.arr[it.i + j_].get('x'), it.arr[it.i + j_].get('y')) for j_ in range(2, res.get('count', 0))]
+                want = []
+                cur = start
+                if tcode in (names.get('ManhattanHorizontalFirst'), names.get('ManhattanVerticalFirst')):
+                    hor = tcode == names.get('ManhattanHorizontalFirst')
+                    for d_ in ones:
+                        cur = (cur[0] + S * d_, cur[1]) if hor else (cur[0], cur[1] + S * d_)
+                        want.append(cur)
+                        hor = not hor
+                    if closed:
+                        want.append((start[0], cur[1]) if hor else (cur[0], start[1]))
+                elif tcode == names.get('Relative'):
+                    acc = (0, 0)
+                    for x_, y_ in pairs:
+                        acc = (acc[0] + S * x_, acc[1] + S * y_)
+                        cur = (cur[0] + acc[0], cur[1] + acc[1])
+                        want.append(cur)
+                else:
+                    for x_, y_ in pairs:
+                        cur = (cur[0] + S * x_, cur[1] + S * y_)
+                        want.append(cur)
+                if got != want or ret != len(want) or res.get('count') != 2 + len(want):
+                    bad.append('%s, %s, deltas %s: stores %s, returns %s, result.count %s; the format defines %s' % (tname, 'closed' if closed else 'open', ones if want and tcode in (0, 1) else pairs, got, ret, res.get('count'), want))
+    ctx.explored['valuations'] += runs
+    ctx.check(not bad, 'R-ALGEBRA.pointlist', 'oasis_read_point_list/model', f.loc(), 'interpreted on %d (type, open / closed, 1-4 deltas) lists: the decoded vertices, the count returned and result.count are the format\'s' % runs,
+              'the point-list decoder is wrong: ' + '; '.join(bad[:2]))
+    ctx.require('R-ALGEBRA.pointlist lists interpreted', runs, 40)
+
+
 def check_point_list_decoder(ctx, db):
     """R-ALGEBRA.pointlist: every arm of the point-list decoder, executed symbolically for K = 3 and 4 deltas (cursor
     pointers as indices into a symbolic vertex array, every decoded delta a fresh symbol, the loop unrolled), produces
@@ -1008,6 +1108,7 @@ def check_point_list_decoder(ctx, db):
             name = names[lab]
             seen.add(name)
             bad = None
+            gap = None
             for K in (3, 4):
                 for closed in (False, True):
                     alg = PL(K, closed, lab)
@@ -1017,7 +1118,11 @@ def check_point_list_decoder(ctx, db):
                         except Stop:
                             pass
                     except (S.Unsupported, KeyError) as ex:
-                        raise AnalysisBroken('oasis_read_point_list/%s: decoder arm not interpretable: %s' % (name, ex))
+                        # a statement form the symbolic executor does not read: this arm is decided on concrete lists by
+                        # check_point_list_model (interpretation); nothing is claimed symbolically
+                        gap = str(ex)
+                        n += 1
+                        continue
                     want = spec(alg, name, K, closed)
                     got = [alg.mem.get(i) for i in range(len(want))]
                     for i, (g_, w_) in enumerate(zip(got, want)):
@@ -1029,6 +1134,9 @@ def check_point_list_decoder(ctx, db):
                     if alg.count_add is None or not S.is_const(alg.count_add) or alg.count_add.get((), 0) != len(want):
                         bad = bad or '%d deltas%s: result.count grows by %s but %d vertices are stored' % (K, ', polygon' if closed else '', alg.render(alg.count_add) if alg.count_add is not None else 'nothing', len(want))
                     n += 1
+            if gap is not None and bad is None:
+                ctx.ok('R-ALGEBRA.pointlist', 'oasis_read_point_list/%s' % name, top.loc(), 'not in symbolic form (%s): decided on concrete lists by oasis_read_point_list/model' % gap)
+                continue
             ctx.check(bad is None, 'R-ALGEBRA.pointlist', 'oasis_read_point_list/%s' % name, top.loc(), 'the decoded vertices equal the format\'s definition for 3 and 4 deltas, open and closed', bad)
     if len(seen) != 6:
         raise AnalysisBroken('oasis_read_point_list: %d of the 6 list types have a decoder arm' % len(seen))
@@ -1155,6 +1263,7 @@ def run(ctx):
     ctx.attempt(check_closing_edge_source, ctx, db)
     ctx.attempt(check_point_lists, ctx, db)
     ctx.attempt(check_point_list_fsm, ctx, db)
+    ctx.attempt(check_point_list_model, ctx, db)
     ctx.attempt(check_point_list_decoder, ctx, db)
     ctx.attempt(check_gds_real, ctx, db)
 
